@@ -1,6 +1,6 @@
 From Coq Require Import ZArith List String Bool.
 Import ListNotations.
-From TD Require Import Lib.Sexp Spec.PySlice Model.C03_Index Spec.C03_TorchIndex Spec.C03_TorchSel.
+From TD Require Import Lib.Sexp Spec.PySlice Model.C03_Index Spec.C03_TorchIndex Spec.C03_TorchSel Model.C03_Names Model.C03_SetItem.
 Open Scope string_scope.
 
 Definition dec_item (s : sexp) : option item :=
@@ -55,6 +55,46 @@ Definition enc_action (a : set_action) : sexp :=
   | SetReshape t => SL [SA "reshape"; enc_list enc_nat t]
   end.
 
+Fixpoint dec_tree (s : sexp) : option vtree :=
+  match s with
+  | SL [SA "leaf"; sh] => option_map VL (dec_list dec_nat sh)
+  | SL [SA "node"; bs; SL kids] =>
+      match dec_list dec_nat bs,
+            (fix go (l : list sexp) : option (list (string * vtree)) :=
+               match l with
+               | [] => Some []
+               | SL [SA k; c] :: r =>
+                   match dec_tree c, go r with Some c', Some r' => Some ((k, c') :: r') | _, _ => None end
+               | _ => None
+               end) kids with
+      | Some b, Some ks => Some (VN b ks)
+      | _, _ => None
+      end
+  | _ => None
+  end.
+
+Fixpoint enc_tree (t : vtree) : sexp :=
+  match t with
+  | VL sh => SL [SA "leaf"; enc_list enc_nat sh]
+  | VN b kids => SL [SA "node"; enc_list enc_nat b; SL (map (fun p => SL [SA (fst p); enc_tree (snd p)]) kids)]
+  end.
+
+Definition dec_wvalue (s : sexp) : option wvalue :=
+  match s with
+  | SA "scalar" => Some WScalar
+  | SL [SA "tensor"; sh] => option_map WTensor (dec_list dec_nat sh)
+  | SL [SA "td"; t] => option_map WTree (dec_tree t)
+  | SL [SA "dict"; t] => option_map WDict (dec_tree t)
+  | _ => None
+  end.
+
+Definition enc_handed (h : handed) : sexp :=
+  match h with
+  | HSelf => SA "self"
+  | HIndex idx => SL [SA "index"; enc_list enc_item idx]
+  | HRaise => SA "raise"
+  end.
+
 Definition dispatch (cmd : string) (args : list sexp) : option sexp :=
   match cmd, args with
   | "gbs", [bs; idx] =>
@@ -78,6 +118,51 @@ Definition dispatch (cmd : string) (args : list sexp) : option sexp :=
   | "sel-all", [bs; idx] =>
       match dec_list dec_nat bs, dec_list dec_vitem idx with
       | Some bs, Some idx => Some (enc_opt (enc_list (enc_opt (enc_list enc_Z))) (sel_all bs idx)) | _, _ => None end
+  | "names", [names; bs; idx; fast] =>
+      match dec_opt (dec_list (dec_opt dec_nat)) names, dec_list dec_nat bs, dec_list dec_item idx, dec_bool fast with
+      | Some nm, Some bs, Some idx, Some fast =>
+          Some (enc_res (enc_opt (enc_list (enc_opt enc_nat))) (names_idx nm bs idx fast))
+      | _, _, _, _ => None end
+  | "getitem-names", [names; bs; idx; fast] =>
+      match dec_opt (dec_list (dec_opt dec_nat)) names, dec_list dec_nat bs, dec_list dec_item idx, dec_bool fast with
+      | Some nm, Some bs, Some idx, Some fast =>
+          Some (enc_res (enc_opt (enc_list (enc_opt enc_nat)))
+                  (match getitem_dispatch bs idx with
+                   | HSelf => Ok nm
+                   | HIndex idx' => names_idx nm bs idx' fast
+                   | HRaise => Reject
+                   end))
+      | _, _, _, _ => None end
+  | "nested-names", [names; bs; extra; idx; fast] =>
+      (* a nested node with batch size bs ++ extra (names ++ unnamed dims) is indexed with the index dispatched at the root *)
+      match dec_opt (dec_list (dec_opt dec_nat)) names, dec_list dec_nat bs, dec_list dec_nat extra, dec_list dec_item idx, dec_bool fast with
+      | Some nm, Some bs, Some extra, Some idx, Some fast =>
+          let nm' := option_map (fun l => (l ++ repeat None (List.length extra))%list) nm in
+          Some (enc_res (enc_opt (enc_list (enc_opt enc_nat)))
+                  (match getitem_dispatch bs idx with
+                   | HSelf => Ok nm'
+                   | HIndex idx' => names_idx nm' (bs ++ extra)%list idx' fast
+                   | HRaise => Reject
+                   end))
+      | _, _, _, _, _ => None end
+  | "setitem-full", [dest; idx; v] =>
+      match dec_tree dest, dec_list dec_item idx, dec_wvalue v with
+      | Some d, Some idx, Some v =>
+          Some (enc_res enc_tree
+                  (match (if existsb is_ell idx then convert_ellipsis idx (match d with VN b _ => b | VL s => s end) else Ok idx) with
+                   | Reject => Reject
+                   | Ok idx' => setitem 8 d idx' v
+                   end))
+      | _, _, _ => None end
+  | "setitem", [dest; idx; v] =>
+      match dec_tree dest, dec_list dec_item idx, dec_wvalue v with
+      | Some d, Some idx, Some v => Some (enc_res enc_tree (setitem 8 d idx v)) | _, _, _ => None end
+  | "write-ok", [L; idx; v] =>
+      match dec_list dec_nat L, dec_list dec_item idx, dec_list dec_nat v with
+      | Some L, Some idx, Some v => Some (enc_bool (torch_write_ok L idx v)) | _, _, _ => None end
+  | "handed", [bs; idx] =>
+      match dec_list dec_nat bs, dec_list dec_item idx with
+      | Some bs, Some idx => Some (enc_handed (getitem_dispatch bs idx)) | _, _ => None end
   | "is-view", [idx] =>
       match dec_list dec_item idx with Some idx => Some (enc_bool (is_view idx)) | None => None end
   | _, _ => None
